@@ -1,7 +1,8 @@
 (* C16 - bulk operations do not depend on batch size or lookup strategy: the sorted-merge helpers, the chunking
    helper and the paging loop.  Only statements, each closed by `exact`, with Print Assumptions beneath. *)
 From Coq Require Import List ZArith Sorting.Sorted.
-From DOS Require Import Generated Merge MergeProofs MergeSpec Chunks.
+From Coq Require Import NArith Sorting.Permutation.
+From DOS Require Import Generated Merge MergeProofs MergeSpec Chunks Store Lookup LookupProofs.
 Import ListNotations.
 Open Scope Z_scope.
 
@@ -47,6 +48,71 @@ Theorem C16_paging : forall (rows : list (Z * Z)) (n : nat), (0 < n)%nat -> Sort
   Forall (fun r => -1 < fst r) rows -> paging (S (length rows)) rows (-1) n = rows.
 Proof. exact (@paging_all Z). Qed.
 Print Assumptions C16_paging.
+
+(* ---- the lookup generator behind has_objects / get_objects_meta / get_objects_content / get_objects_stream_and_meta ----
+   Lookup.lookup_bulk transcribes Container._get_objects_stream_meta_generator: chunked IN-queries or the ordered scan merged by
+   detect_where_sorted (chosen by the number of distinct keys), grouping per pack, the loose folder, the refreshed index, MISSING.
+   For EVERY pair of thresholds (IN-batch size > 0), every index snapshot d1 / refreshed index d2 with unique keys (the UNIQUE
+   constraint), every loose folder and every duplicate-free enumeration ks of the request: the answer is, as a multiset, the
+   single-key answer (Lookup.lookup1) of each key - minus the MISSING ones when skip_if_missing -, no key twice, and the
+   sorted-merge never rejects its input. *)
+Theorem C16_bulk_lookup_is_map_single : forall c skip d1 ls d2 ks,
+  (0 < in_max c)%nat -> NoDup (map rkey d1) -> NoDup (map rkey d2) -> NoDup ks ->
+  Permutation (fst (lookup_bulk c skip d1 ls d2 ks)) (filter (wanted skip) (map (lookup1 d1 ls d2) ks)) /\
+  NoDup (map fkey (fst (lookup_bulk c skip d1 ls d2 ks))) /\
+  snd (lookup_bulk c skip d1 ls d2 ks) = Ok.
+Proof.
+  intros c skip d1 ls d2 ks Hn N1 N2 Nk.
+  exact (conj (bulk_is_map_single c skip d1 ls d2 ks Hn N1 N2 Nk)
+        (conj (bulk_each_key_once c skip d1 ls d2 ks Hn N1 N2 Nk) (bulk_never_rejects c skip d1 ls d2 ks Hn N1 N2 Nk))).
+Qed.
+Print Assumptions C16_bulk_lookup_is_map_single.
+
+(* whichever strategy and batch size the thresholds select, the answer is the same multiset *)
+Theorem C16_bulk_lookup_strategy_independent : forall c c' skip d1 ls d2 ks,
+  (0 < in_max c)%nat -> (0 < in_max c')%nat -> NoDup (map rkey d1) -> NoDup (map rkey d2) -> NoDup ks ->
+  Permutation (fst (lookup_bulk c skip d1 ls d2 ks)) (fst (lookup_bulk c' skip d1 ls d2 ks)).
+Proof. exact bulk_strategy_independent. Qed.
+Print Assumptions C16_bulk_lookup_strategy_independent.
+
+(* ANY request list (any order, any repetitions): every distinct requested key is answered exactly once, with the single-key
+   answer, and nothing that was not requested is reported *)
+Theorem C16_bulk_lookup_any_request : forall c skip d1 ls d2 req,
+  (0 < in_max c)%nat -> NoDup (map rkey d1) -> NoDup (map rkey d2) ->
+  let out := fst (lookup_bulk c skip d1 ls d2 (dedup req)) in
+  NoDup (map fkey out) /\
+  (forall k, In k (map fkey out) -> In k req) /\
+  (skip = false -> forall k, In k req -> In k (map fkey out)) /\
+  (forall f, In f out -> f = lookup1 d1 ls d2 (fkey f)).
+Proof. exact bulk_any_request. Qed.
+Print Assumptions C16_bulk_lookup_any_request.
+
+(* the packed answers come as ONE contiguous run per pack, each run in offset order (one pack file open at a time, read forwards) *)
+Theorem C16_bulk_lookup_runs : forall rows,
+  NoDup (first_ids [] rows) /\
+  grouped rows = flat_map (group rows) (first_ids [] rows) /\
+  forall p, Forall (fun r => rpack r = p) (group rows p) /\ Sorted (fun a b => (roff a <= roff b)%nat) (group rows p).
+Proof. exact grouped_runs. Qed.
+Print Assumptions C16_bulk_lookup_runs.
+
+(* the thresholds of the current source are admissible *)
+Theorem C16_lookup_thresholds : (0 < Z.to_nat IN_SQL_MAX_LENGTH)%nat.
+Proof. cbv. repeat constructor. Qed.
+Print Assumptions C16_lookup_thresholds.
+
+(* non-vacuity: 3 packed rows in two packs, one loose object, one object only in the refreshed index, one missing key;
+   thresholds (2,3): 5 distinct keys > 3 -> the ordered scan; thresholds (2,7) -> chunked IN-queries; same answers *)
+Definition ex_d1 := [mkRow 5%N 0 10 4 false 4; mkRow 2%N 1 0 3 true 9; mkRow 9%N 0 0 10 false 10].
+Definition ex_d2 := ex_d1 ++ [mkRow 7%N 1 3 2 false 2].
+Definition ex_ls : list (key * nat) := [(4%N, 6%nat)].
+Example C16_lookup_ex_scan : lookup_bulk (mkLcfg 2 3) false ex_d1 ex_ls ex_d2 (dedup [9;4;7;5;8;9;2]%N) =
+  ([FPacked (mkRow 2%N 1 0 3 true 9); FPacked (mkRow 9%N 0 0 10 false 10); FPacked (mkRow 5%N 0 10 4 false 4);
+    FLoose 4%N 6; FPacked (mkRow 7%N 1 3 2 false 2); FMissing 8%N], Ok).
+Proof. vm_compute. reflexivity. Qed.
+Example C16_lookup_ex_chunked : lookup_bulk (mkLcfg 2 7) true ex_d1 ex_ls ex_d2 (dedup [9;4;7;5;8;9;2]%N) =
+  ([FPacked (mkRow 9%N 0 0 10 false 10); FPacked (mkRow 5%N 0 10 4 false 4); FPacked (mkRow 2%N 1 0 3 true 9);
+    FLoose 4%N 6; FPacked (mkRow 7%N 1 3 2 false 2)], Ok).
+Proof. vm_compute. reflexivity. Qed.
 
 (* the constants of the current source satisfy what the lemmas need *)
 Theorem C16_constants : 0 < IN_SQL_MAX_LENGTH <= 999 /\ 0 < LIST_YIELD_PER /\ 0 < PACK_YIELD_PER /\ 0 <= MAX_CHUNK_ITERATE_LENGTH.
